@@ -21,7 +21,9 @@ import (
 	proto "github.com/akrennmair/updog/proto/updog/v1"
 	"github.com/akrennmair/updog/zverif/internal/vx"
 	"google.golang.org/grpc"
+	"google.golang.org/grpc/codes"
 	"google.golang.org/grpc/credentials/insecure"
+	"google.golang.org/grpc/status"
 	pb "google.golang.org/protobuf/proto"
 )
 
@@ -253,6 +255,9 @@ func fromPBResult(d *vx.Dict, r *proto.Result) vx.Res {
 
 // replyOK compares a real reply with the one the specification prescribes.
 func replyOK(d *vx.Dict, want rpcReply, resp *proto.QueryResponse, err error) string {
+	if status.Code(err) == codes.DeadlineExceeded {
+		return "the request was not answered within the deadline (an RPC error is an answer, silence is not)"
+	}
 	if want.Kind == "rpcerror" {
 		if err == nil {
 			return "expected an RPC error, got a response"
@@ -673,6 +678,9 @@ func recordRPC(args []string) error {
 		reply := map[string]any{"kind": "response", "results": []any{}}
 		if rerr != nil {
 			reply["kind"] = "rpcerror"
+			if status.Code(rerr) == codes.DeadlineExceeded {
+				reply["kind"] = "timeout" // never answered: matches no reply the specification allows
+			}
 		} else {
 			rs := []any{}
 			for _, r := range resp.Results {
